@@ -7,6 +7,7 @@ import LWV.Model.Tags
 import LWV.Spec.TagsRef
 import LWV.Model.Crc
 import LWV.Model.Radiotap
+import LWV.Model.Rssi
 import LWV.Spec.Radiotap
 import LWV.Model.Frames
 import LWV.Spec.Frames
@@ -647,6 +648,21 @@ def step (line : String) : String :=
   | ["rtp", h] =>
     match ofHex h with
     | some bs => showOutcome (fun i => "ok " ++ showRtInfo i) (Model.parseRadiotapInfo bs) ++ " ;; spec=" ++ specRtp bs
+    | none => "bad-op"
+  | ["rssi", h] =>
+    match ofHex h with
+    | some bs =>
+      let sg (v : Nat) : Int := if v ≥ 128 then (v : Int) - 256 else v
+      let m := match Model.parseRssi bs with
+        | .ok v => s!"rssi={sg v}"
+        | .err c => s!"err {c}"
+        | .fault f => s!"FAULT {repr f}"
+      let sp := if Model.rssiCovered bs then
+          match Spec.rtFields bs with
+          | some (itLen, fields) => s!"rssi={sg (Spec.rtValues bs itLen fields 16).signal}"
+          | none => "any"
+        else "any"
+      m ++ " ;; spec=" ++ sp
     | none => "bad-op"
   | ["rtg", kvs] =>
     let g := rtGenOf (parseKV kvs)
